@@ -56,6 +56,8 @@ def persistent_producers(db, rep):
     P = set()
     base = {}
     for f in db.fns.values():
+        if f.name not in ("persistent", "alloc_persistent"):
+            continue
         c = cname(f.id)
         if c in ("Register::persistent", "RegisterAllocator::alloc_persistent"):
             base[c] = f
@@ -76,7 +78,7 @@ def persistent_producers(db, rep):
                f"{c} no longer references RegisterFlags::PERSISTENT: registers it returns would trip the drop bomb",
                loc=f.span)
         P.add(f.id)
-    cands = [f for f in db.fns.values() if f.locals and (f.locals[0] == REGTY) and f.id not in P]
+    cands = [f for f in db.fns.values() if f.mentions(REGTY) and f.locals and (f.locals[0] == REGTY) and f.id not in P]
     changed = True
     while changed:
         changed = False
@@ -139,8 +141,9 @@ def r1(db, rep, prop="C03"):
     n = 0
     fns_with = 0
     ordinals = {}
+    needles = ["register::Register"] + [c.split("::")[-1] for c in cont]
     for f in db.fns.values():
-        if not f.id.startswith("boa_engine::"):
+        if not f.id.startswith("boa_engine::") or not any(f.mentions(x) for x in needles):
             continue
         any_here = False
         for b in sorted(f.reachable()):
@@ -184,7 +187,7 @@ def r1(db, rep, prop="C03"):
 
     # every function that allocates: alloc() results must not be forgotten via mem::forget / ManuallyDrop
     for f in db.fns.values():
-        if not f.id.startswith("boa_engine::"):
+        if not f.id.startswith("boa_engine::") or not (f.mentions("mem::forget") or f.mentions("ManuallyDrop")):
             continue
         for b, t in f.calls():
             c = cn(t)
@@ -197,7 +200,7 @@ def r1(db, rep, prop="C03"):
     # register_count writer
     writers = []
     for f in db.fns.values():
-        if not f.id.startswith("boa_engine::"):
+        if not f.id.startswith("boa_engine::") or not f.mentions("register_count"):
             continue
         for b in sorted(f.reachable()):
             for s in f.blocks[b]["s"]:
@@ -273,7 +276,8 @@ def r2(db, rep):
                    "pop_declarative_scope/emit_pop_environment, on every path; current_open_environments_count written only in env.rs")
     npush = 0
     for f in db.fns.values():
-        if not f.id.startswith("boa_engine::"):
+        if not f.id.startswith("boa_engine::") or not (f.mentions("push_scope") or f.mentions("push_declarative_scope")
+                                                      or f.mentions("emit_push_object_environment")):
             continue
         name = cname(f.id)
         if name in ("ByteCompiler::push_declarative_scope", "ByteCompiler::pop_declarative_scope",
@@ -321,7 +325,7 @@ def r2(db, rep):
     rep.floor("R2", "scope-open sites", npush, 14)
     writers = {}
     for f in db.fns.values():
-        if f.id.startswith("boa_engine::"):
+        if f.id.startswith("boa_engine::") and f.mentions("current_open_environments_count"):
             for b, s in assigns_to_field(f, "ByteCompiler.current_open_environments_count"):
                 writers.setdefault(cname(f.id).split("::{closure")[0], f)
             for b in f.reachable():
@@ -396,7 +400,7 @@ def r4(db, rep):
     n = 0
     stored_async = 0
     for f in db.fns.values():
-        if not f.id.startswith("boa_engine::"):
+        if not f.id.startswith("boa_engine::") or not f.mentions("push_handler"):
             continue
         name = cname(f.id)
         if name == "ByteCompiler::push_handler":
